@@ -381,7 +381,7 @@ let cfg_of_string (s : string) : config =
          | "wg_last" -> { c with wg_last = b } | "add_before_accept" -> { c with add_before_accept = b }
          | "stop_interrupts" -> { c with stop_interrupts = b } | "ready_on_error" -> { c with ready_on_error = b }
          | "close_on_cancel" -> { c with close_on_cancel = b } | "unbind" -> { c with has_unbind_route = b }
-         | "onclose" -> { c with has_onclose = b } | "accept_retry" -> { c with accept_retry = b }
+         | "onclose" -> { c with has_onclose = b } | "accept_retry" -> { c with accept_retry = b } | "untrack_late" -> { c with untrack_late = b }
          | "addr" | "tls" | "readtimeout" | "race" -> c     (* worker options, not model parameters *)
          | _ -> failwith ("bad cfg key " ^ k))
       | _ -> failwith "bad cfg kv") base (List.tl parts)
